@@ -335,7 +335,7 @@ def nat_sweep(seed, count):
     rng = np.random.default_rng(seed)
     fails, ev = [], 0
     for it in range(count):
-        n = int(rng.choice([1, 2, 5, 50, 400, 2000]))
+        n = int(rng.choice([1, 2, 5, 50, 400, 2000])) if it % 12 != 5 else int(rng.choice([4500, 6000, 8192, 8200]))
         kind = rng.integers(4)
         if kind == 0:
             O = R.random(n, random_state=int(rng.integers(1 << 30))).as_matrix()
@@ -348,6 +348,11 @@ def nat_sweep(seed, count):
         else:
             O = np.array([R.random(random_state=int(rng.integers(1 << 30))).as_matrix()] * n)
         O = np.asarray(O).reshape(n, 3, 3)
+        if n > 4096:
+            # large aggregates are heterogeneous along the array (the last 1500 grains form their own cluster), so that any
+            # block-wise accumulation that loses or double-counts a block changes the result
+            base2 = R.random(random_state=int(rng.integers(1 << 30)))
+            O[-1500:] = (R.from_rotvec(0.1 * rng.normal(size=(1500, 3))) * base2).as_matrix()
         Q = R.random(random_state=int(rng.integers(1 << 30))).as_matrix()
         perm = rng.permutation(n)
         Sg = np.diag([[1, -1, -1], [-1, 1, -1], [-1, -1, 1]][rng.integers(3)]).astype(float)
